@@ -31,11 +31,15 @@ DIRECTED = [
     "functie f(x) { als x { antwoord \"vroeg\" } \"laat\" } [f(ja), f(nee)]",
     "stel n = 0; functie tel() { n = n + 1; n } [tel(), tel(), tel()] ",
     "functie f(x) { print(\"f {}\", x); x } f(1) + f(2) * f(3)", "functie f(x) { print(\"f {}\", x); x } f(ja) && f(nee) || f(ja)",
-    "functie f(x) { print(\"f {}\", x); x } [f(1), f(2)][f(0)]", "functie f(x) { print(\"f {}\", x); x } stel a = [0, 0]; a[f(1)] = f(5); a",
+    "functie f(x) { print(\"f {}\", x); x } [f(1), f(2)][f(0)]",
+    "-(0 - 1152921504606846975 - 1)", "functie f(x) { -x } f(0 - 1152921504606846975 - 1)", "1152921504606846975 + 1", "functie f(x) { x + 1 } f(1152921504606846975)",
+    "(0 - 1152921504606846975) - 2", "1152921504606846975 * 2", "(0 - 1152921504606846975 - 1) / (0 - 1)", "7 / 0", "7 % 0", "functie f(x) { x % 0 } f(7)", "functie f(x) { print(\"f {}\", x); x } stel a = [0, 0]; a[f(1)] = f(5); a",
 ]
 
 
 def in_f1(ast):
+    """inside the PROVED fragment (F2 of compile_correct): top-level scalar code with nested block scopes, if-chains
+    as statement and value, loops with stop/volgende in statement position; no functions, heap values or builtins"""
     def e_ok(e):
         k = e[0]
         if k in ("int", "bool", "id"):
@@ -46,8 +50,24 @@ def in_f1(ast):
             return e_ok(e[2])
         if k == "assign":
             return e[1][0] == "id" and e_ok(e[2])
+        if k == "if":
+            return e_ok(e[1]) and b_ok(e[2]) and (e[3] is None or b_ok(e[3]))
+        if k == "while":
+            return e_ok(e[1]) and b_ok(e[2])
         return False
-    return all((s[0] == "let" and e_ok(s[2])) or (s[0] == "expr" and e_ok(s[1])) for s in ast)
+
+    def s_ok(s):
+        if s[0] == "let":
+            return e_ok(s[2]) and not genwf.mentions(s[2], s[1])
+        if s[0] == "expr":
+            return e_ok(s[1])
+        if s[0] == "block":
+            return b_ok(s[1])
+        return s[0] in ("break", "continue")
+
+    def b_ok(b):
+        return all(s_ok(x) for x in b)
+    return b_ok(ast)
 
 
 def run(ctx, log):
@@ -80,9 +100,9 @@ def run(ctx, log):
         ctx.seen(s, nontrivial=ok)
         h = progcheck.head(o)
         ctx.count("outcome:" + h.split()[0] + (h[3:] if h.startswith("ERR") else ""))
-    ctx.stats["programs_inside_proved_fragment_F1"] = inside
+    ctx.stats["programs_inside_proved_fragment_F2"] = inside
     ctx.stats["programs_total"] = len(progs)
-    log("%d programs, %d compile, %d inside the proved fragment F1" % (len(progs), ncomp, inside))
+    log("%d programs, %d compile, %d inside the proved fragment F2" % (len(progs), ncomp, inside))
     ctx.sample(dict(source=progs[8], compile=obs["compile"][8][:120], eval=obs["eval"][8][:120]))
     ctx.sample(dict(source=srcs[0][:400], eval=obs["eval"][len(progs) - len(srcs) - len(srcs2)][:160]))
 
